@@ -144,7 +144,10 @@ def timing(tier, seed):
               "non-trivial = distinct case", "9 timesteps, 2 assets")
     for delay in range(0, 4):
         for kind in ("box", "disc"):
-            bad = fifo_case(delay, kind)
+            try:
+                bad = fifo_case(delay, kind)
+            except Exception as ex:
+                bad = [{"raised": "%s: %s" % (type(ex).__name__, str(ex)[:200])}]
             acc.case(("fifo", delay, kind), sample={"delay": delay, "space": kind} if (delay, kind) == (2, "disc") else None)
             acc.validated += 1
             if bad:
@@ -153,7 +156,10 @@ def timing(tier, seed):
         for off in (0, L - 1, L - 0.5, L, L + 1e-6, L + 0.5, L + 1, 2 * L):
             if off < 0:
                 continue
-            bad = latency_case(L, off)
+            try:
+                bad = latency_case(L, off)
+            except Exception as ex:
+                bad = [{"raised": "%s: %s" % (type(ex).__name__, str(ex)[:200])}]
             acc.case(("latency", L, off), sample={"latency": L, "quote_offset": off} if off == L else None)
             acc.validated += 1
             if bad:
